@@ -57,6 +57,12 @@ Step(s, e, i) ==
     [] e.ev = "pvec" -> OnP(s0, e)
     [] e.ev = "trick" -> OnTrick(s0, e)
     [] e.ev = "dur" -> OnDur(s0, e)
+    \* units through one Muxer and one Demuxer: per PID, header for header and byte for byte what was written
+    [] e.ev = "pstream" -> RepIf(e.got # e.sent, s0, V("stream-unit-differs-from-what-was-written", s0, e,
+                                  [pid |-> e.pid, nsent |-> Len(e.sent), ngot |-> Len(e.got),
+                                   first |-> IF \E k \in 1..Len(e.sent) : k > Len(e.got) \/ e.got[k] # e.sent[k]
+                                             THEN CHOOSE k \in 1..Len(e.sent) : (k > Len(e.got) \/ e.got[k] # e.sent[k]) /\ \A j \in 1..(k-1) : e.got[j] = e.sent[j]
+                                             ELSE Len(e.sent) + 1]))
     [] OTHER -> s
 
 Next == /\ l <= Len(Trace)
